@@ -13,6 +13,10 @@
  *                                                     ZSTD_shouldAttachDict, ZSTD_compressBegin_usingCDict, the index the attached-dictionary
  *                                                     compressors compute for the first repeat offset at the first position
  *                                                     -> <id> OK <tagged> <retained> <shouldAttach> <attached> <prefixStart> <rep1..3 in the context> <repIndex1>
+ *   W <id> <mode 0=ZSTD_compressBlock 1=ZSTD_compressContinue> <strategy> <windowLog> <dictContentSize> <bytes compressed on the context before> <off:len,...>
+ *                                                     raw-content CDict, ZSTD_compressBegin_usingCDict (attached), then one call per segment placed at arena+off :
+ *                                                     -> <id> OK <blockSize> <maxDist> <state> <state>...   state = base:dictBase:dictLimit:lowLimit:nextSrc:loadedDictEnd:attached:ZSTD_getLowestMatchIndex(at the end index)
+ *                                                     (addresses relative to the arena), first state = right after the begin call
  * modes: 0 = FSE_repeat_none, 1 = FSE_repeat_check, 2 = FSE_repeat_valid ; types: 0 basic 1 rle 2 compressed 3 repeat (symbolEncodingType_e) */
 #define ZSTD_STATIC_LINKING_ONLY
 #define ZDICT_STATIC_LINKING_ONLY
@@ -113,6 +117,29 @@ int main(void) {
                 else { const ZSTD_matchState_t* ms = &c->blockState.matchState; U32 ps = ms->window.dictLimit; U32 r1 = c->blockState.prevCBlock->rep[0];
                     printf("%s OK %d %u %d %d %u %u,%u,%u %u\n", id, ZSTD_CDictIndicesAreTagged(&cd->matchState.cParams), retained, sa, ms->dictMatchState != NULL, ps,
                            r1, c->blockState.prevCBlock->rep[1], c->blockState.prevCBlock->rep[2], (U32)(ps + 1 - r1)); } }
+            ZSTD_freeCDict(cd); ZSTD_freeCCtx(c); free(d);
+        }
+        else if (cmd[0] == 'W') {
+            int mode = atoi(strtok(NULL, " \n")), strat = atoi(strtok(NULL, " \n")); unsigned wlog = (unsigned)atoi(strtok(NULL, " \n")); size_t dcs = (size_t)atol(strtok(NULL, " \n")), reuse = (size_t)atol(strtok(NULL, " \n"));
+            char* sl = strtok(NULL, " \n"); static unsigned char* arena; static unsigned char* outb; size_t const AR = 4u << 20; unsigned char* d = (unsigned char*)malloc(dcs + 1);
+            ZSTD_compressionParameters cp = ZSTD_getCParams(3, 0, dcs); ZSTD_CDict* cd; ZSTD_CCtx* c = ZSTD_createCCtx(); size_t e;
+            if (!arena) { arena = (unsigned char*)malloc(AR); outb = (unsigned char*)malloc(AR); }
+            fill(d, dcs); cp.strategy = (ZSTD_strategy)strat; cp.windowLog = wlog; cp = ZSTD_adjustCParams(cp, 0, dcs); cp.windowLog = wlog;
+            cd = ZSTD_createCDict_advanced(d, dcs, ZSTD_dlm_byRef, ZSTD_dct_rawContent, cp, ZSTD_defaultCMem);
+            if (reuse) { fill(arena, reuse); ZSTD_compressCCtx(c, outb, AR, arena, reuse, 1); }
+            e = cd ? ZSTD_compressBegin_usingCDict(c, cd) : (size_t)-1;
+            if (ZSTD_isError(e)) printf("%s ERR begin\n", id);
+            else { const ZSTD_matchState_t* ms = &c->blockState.matchState; char* q = sl ? strtok(sl, ",") : NULL; int bad = 0;
+                printf("%s OK %lu %u", id, (unsigned long)c->blockSize, 1u << c->appliedParams.cParams.windowLog);
+#define PST() printf(" %lld:%lld:%u:%u:%lld:%u:%d:%u", (long long)(ms->window.base - arena), (long long)(ms->window.dictBase - arena), ms->window.dictLimit, ms->window.lowLimit, (long long)(ms->window.nextSrc - arena), ms->loadedDictEnd, ms->dictMatchState != NULL, \
+                    ZSTD_getLowestMatchIndex(ms, (U32)(ms->window.nextSrc - ms->window.base), c->appliedParams.cParams.windowLog))
+                PST();
+                while (q && !bad) { unsigned long off, len; if (sscanf(q, "%lu:%lu", &off, &len) != 2 || off + len > AR) break;
+                    fill(arena + off, len);
+                    e = mode == 0 ? ZSTD_compressBlock(c, outb, AR, arena + off, len) : ZSTD_compressContinue(c, outb, AR, arena + off, len);
+                    if (ZSTD_isError(e)) { printf(" ERR"); bad = 1; } else PST();
+                    q = strtok(NULL, ","); }
+                printf("\n"); }
             ZSTD_freeCDict(cd); ZSTD_freeCCtx(c); free(d);
         }
         fflush(stdout);
